@@ -252,7 +252,7 @@ PROPS['C15'] = dict(
           'coarse-ancestor locations) x all 16 res x the four modes x every candidate cell near the polygon; invalid flag words. '
           'non-trivial = at least one cell with a decided overlap witness and one decided disjoint cell; distinct by polygon + res'),
     quick=dict(cases={'fast': 5_000, 'asan': 400}),
-    thorough=dict(cases={'fast': 150_000, 'asan': 8_000}),
+    thorough=dict(cases={'fast': 70_000, 'asan': 5_000}),
     level_text=('sandwich oracle in binary128 with a 1e-9 rad margin plus the chord/great-circle bulge of each cell edge: FULL only if centre and vertices are inside, FULL if the cell is wholly interior, OVERLAPPING if a decided witness exists '
                 '(centre / cell vertex / polygon vertex inside the other shape, robustly crossing edges) and never if the shapes are separated; exact nesting FULL<=CENTER<=OVERLAPPING<=OVERLAPPING_BBOX, no duplicates, size bound with exactly sized guarded buffers, '
                 'E_MEMORY_BOUNDS at capacity count-1 and 0, E_OPTION_INVALID for invalid flags'),
